@@ -230,6 +230,7 @@ SubBagSeq(a, b) == \A i \in 1..Len(a) : Count(a[i], a) <= Count(a[i], b)
 JudgeAgainst(E, got, path, distinct) ==
   IF ~SameBag(Vals(E), got) THEN (IF SubBagSeq(Vals(E), got) THEN "extra" ELSE IF SubBagSeq(got, Vals(E)) THEN "fewer" ELSE "sel")
   ELSE IF ~distinct THEN "ok"      \* equal values at different locations: order cannot be attributed, bag only
+  ELSE IF HasDesc(path) /\ Len(Dedup(E)) < Len(E) THEN "ok"   \* descent plus a location reached twice: bag only
   ELSE IF OrderOK(E, got, HasDesc(path)) THEN "ok" ELSE "order"
 Better(a, b) == IF a = "ok" \/ b = "ok" THEN "ok" ELSE IF a = "order" \/ b = "order" THEN "order" ELSE a
 JudgeGet(path, root, got, distinct) ==
